@@ -390,6 +390,24 @@ example : (Mirror.masterLP [[2, 0], [0, 2]] [3, 2] Solvor.Gen.Cut.cgEps).2.2 = s
 -- `eps`, because eliminations with |factor| ≤ eps are skipped), hence the value is the LP optimum
 -- up to a multiple of `eps`.
 
+/-- [S, partial] `master-LP mirror`, dual side at a regular exit: when the final tableau passes the
+entering test of `simplex_phase` (decidable on the output; it is how the loop normally ends), the
+duals read off price every non-basic pool column at most `1 + eps` and every dual with a
+non-basic surplus column is at least `−eps`.  For all inputs, whatever the pivots were. -/
+theorem master_lp_duals_eps_feasible (cols : List Pat) (d : List Nat) (eps : Rat) (t : Mirror.Tab) (b : List Nat)
+    (h : Mirror.masterCore cols d eps = some (t, b))
+    (hexit : Mirror.findEnter t b (cols.length + d.length) d.length eps = none) :
+    (∀ j, j < cols.length → b.contains j = false →
+      Mirror.priceOf t cols.length d.length (cols.getD j []) ≤ 1 + eps) ∧
+    (∀ i, i < d.length → b.contains (cols.length + i) = false →
+      -eps ≤ Mirror.tget t d.length (cols.length + i)) :=
+  Mirror.masterCore_duals_eps_feasible cols d eps t b h hexit
+
+-- non-vacuity: the master LP over (2,0),(0,2),(1,1) with demands (3,2) ends regularly
+example : (match Mirror.masterCore [[2, 0], [0, 2], [1, 1]] [3, 2] Solvor.Gen.Cut.cgEps with
+    | some (t, b) => Mirror.findEnter t b 5 2 Solvor.Gen.Cut.cgEps == none
+    | none => false) = true := by decide +kernel
+
 /-! ### T-model: the `solve_bp` mirror (Solvor/Cut/MirrorBp.lean) -/
 
 open Mirror in
